@@ -154,6 +154,17 @@ func apiScenario(name string, group bool) *netctl.Scenario {
 							growU()
 						}
 					}
+					// two LATE growths, after the group has settled with c as leader
+					// tracking u as an external topic (the early ones all land before
+					// the leader's external map exists): the leader's metadata update
+					// rewrites the count of an external topic in a published map
+					// (immutability oracle, lib/cowwatch; seed C41b)
+					for i := 0; i < 2; i++ {
+						time.Sleep(2 * time.Second) // virtual
+						t.Step(fmt.Sprintf("envg-late-%d", i))
+						growU()
+						cl.ForceMetadataRefresh()
+					}
 				})
 				x.Thread("RF", func(t *netctl.Thread) {
 					for i := 0; i < rounds; i++ {
